@@ -176,6 +176,8 @@ struct Stats {
     threads: BTreeMap<usize, u64>,
     overlapping_histories: u64,
     distinct_histories: std::collections::BTreeSet<u64>,
+    /// Order-independent fingerprint of every execution's history.
+    fingerprint: u64,
     prunes_that_removed: u64,
     sample: Option<String>,
 }
@@ -306,6 +308,12 @@ fn scenario(with_prune: bool, max_threads: usize, stats: &StdArc<StdMutex<Stats>
     let mut s = stats.lock().unwrap();
     s.executions += 1;
     s.ops += events.len() as u64;
+    {
+        let mut order: Vec<&Event> = events.iter().collect();
+        order.sort_by_key(|e| e.inv);
+        let sig = format!("{:?}", order.iter().map(|e| (e.thread, format!("{:?}", e.op), format!("{:?}", e.outcome), e.inv, e.ret)).collect::<Vec<_>>());
+        s.fingerprint = s.fingerprint.wrapping_add(simseam::mix64(hash_str(&sig)));
+    }
     *s.threads.entry(n_threads).or_insert(0) += 1;
     if overlapping {
         s.overlapping_histories += 1;
@@ -422,6 +430,7 @@ fn main() {
                     let _ = std::fs::write(&ev_path, serde_json::to_string_pretty(&ev).unwrap());
                 }
             }
+            println!("{id} shuttle fingerprint {:016x}", s.fingerprint);
             println!(
                 "{id} shuttle: {} executions ({} with overlapping operations, {} distinct) in {:.1}s; failures={}",
                 s.executions,
